@@ -6,6 +6,7 @@ touches the thread table after the `schedule` call of a stage.  Proved by walkin
 reachable from `World.stepActive` with a small postcondition calculus.
 -/
 import LoomVerif.Proofs.C10NoLeak
+import LoomVerif.Proofs.InterpMaxTh
 namespace LoomVerif
 namespace C10
 open World
@@ -74,8 +75,23 @@ theorem active_world_fenceAcq (w : World) :
     · exact active_atomic_fenceAcq _ _
     · rfl
 
+theorem active_world_fenceSC (w : World) :
+    w.fenceSC.exec.threads.active = w.exec.threads.active := by
+  show (World.fenceAcq _).exec.threads.active = _
+  rw [active_world_fenceAcq]; rfl
+
+theorem tlsGet_act {w w' : World} {k : Nat} {r : Option Nat} (h : ActT w.exec.threads)
+    (e : w.tlsGet k = (w', r)) : ActT w'.exec.threads := by
+  have := World.tlsGet_exec w k
+  rw [e] at this
+  show ActT w'.exec.threads
+  rw [show w'.exec = w.exec from this]; exact h
+
+theorem dropLocals_act {w : World} (h : ActT w.exec.threads) : ActT w.dropLocals.exec.threads := by
+  rw [World.dropLocals_exec]; exact h
+
 /-- leaves: the `active` field is reached through definitional unfolding, or through one of the
-four rewrite rules above -/
+rewrite rules above -/
 macro "post_leaf" : tactic => `(tactic| first
   | exact True.intro
   | rfl
@@ -86,7 +102,14 @@ macro "post_leaf" : tactic => `(tactic| first
   | (apply GoodT.of_act; show (Threads.active (List.foldl _ _ _)).isSome = true
      rw [active_foldl_unpark]; assumption)
   | (apply GoodT.of_act; show (World.fenceAcq _).exec.threads.active.isSome = true
-     rw [active_world_fenceAcq]; assumption))
+     rw [active_world_fenceAcq]; assumption)
+  | (apply GoodT.of_act; show (World.fenceSC _).exec.threads.active.isSome = true
+     rw [active_world_fenceSC]; assumption)
+  | (apply GoodT.of_act; exact tlsGet_act (by assumption) (by assumption))
+  | (apply GoodT.of_act; exact tlsGet_act (tlsGet_act (by assumption) (by assumption)) (by assumption))
+  | (apply GoodT.of_act; exact dropLocals_act (by assumption))
+  | (show (World.fenceSC _).exec.threads.active.isSome = true
+     rw [active_world_fenceSC]; assumption))
 
 /-- extensible: the specification of a callee, `Post (f x) ?Q` -/
 syntax "post_spec" : tactic
@@ -128,8 +151,8 @@ theorem threadDone_post (w : World) : Post w.threadDone (fun w' => GoodT w'.exec
   unfold World.threadDone; post
 macro_rules | `(tactic| post_spec) => `(tactic| with_reducible exact threadDone_post ..)
 
-theorem primStart_post {w : World} (h : ActT w.exec.threads) (x : Nat) (p : Prim) :
-    Post (w.primStart x p) (fun w' => GoodT w'.exec.threads) := by
+theorem primStart_post {w : World} (h : ActT w.exec.threads) (x : Nat) (p : Prim) (next : Nat) :
+    Post (w.primStart x p next) (fun w' => GoodT w'.exec.threads) := by
   unfold World.primStart; post
 macro_rules | `(tactic| post_spec) => `(tactic| ((with_reducible refine primStart_post ?_ ..); post_leaf))
 
@@ -235,13 +258,67 @@ theorem Exec.newThread_post {e : Exec} (h : ActT e.threads) :
   unfold Exec.newThread; post
 macro_rules | `(tactic| post_spec) => `(tactic| ((with_reducible refine Exec.newThread_post ?_); post_leaf))
 
+theorem lazyGet_post {w : World} (h : ActT w.exec.threads) (z : Nat) :
+    Post (w.lazyGet z) (fun r => ActT r.1.exec.threads) := by
+  unfold World.lazyGet; post
+macro_rules | `(tactic| post_spec) => `(tactic| ((with_reducible refine lazyGet_post ?_ ..); post_leaf))
+
+theorem wakerClone_post {w : World} (h : ActT w.exec.threads) (a : Nat) :
+    Post (w.wakerClone a) (fun w' => ActT w'.exec.threads) := by
+  unfold World.wakerClone; post
+macro_rules | `(tactic| post_spec) => `(tactic| ((with_reducible refine wakerClone_post ?_ ..); post_leaf))
+
+theorem wakerDrop_post {w : World} (h : ActT w.exec.threads) (a : Nat) :
+    Post (w.wakerDrop a) (fun w' => ActT w'.exec.threads) := by
+  unfold World.wakerDrop; post
+macro_rules | `(tactic| post_spec) => `(tactic| ((with_reducible refine wakerDrop_post ?_ ..); post_leaf))
+
+theorem blockOnStage_post {w : World} (h : ActT w.exec.threads) (c : TCtl) (f mode : Nat) :
+    Post (w.blockOnStage c f mode) (fun w' => GoodT w'.exec.threads) := by
+  unfold World.blockOnStage; post
+
+theorem wakeStage_post {w : World} (h : ActT w.exec.threads) (c : TCtl) (f : Nat) (b : Bool) :
+    Post (w.wakeStage c f b) (fun w' => GoodT w'.exec.threads) := by
+  unfold World.wakeStage; post
+
+theorem finishThread_post {w : World} (h : ActT w.exec.threads) (c : TCtl) :
+    Post (w.finishThread c) (fun w' => GoodT w'.exec.threads) := by
+  unfold World.finishThread
+  dsimp only
+  split
+  · exact Post.pure _ (GoodT.of_act (dropLocals_act h))
+  all_goals post
+
 theorem runEpilogue_post {w : World} (h : ActT w.exec.threads) (c : TCtl) :
     Post (w.runEpilogue c) (fun w' => GoodT w'.exec.threads) := by
   unfold World.runEpilogue; post
+  exact finishThread_post h c
 
 theorem runOp_post {w : World} (h : ActT w.exec.threads) (c : TCtl) (op : Op) :
     Post (w.runOp c op) (fun w' => GoodT w'.exec.threads) := by
-  cases op <;> (simp only [World.runOp] <;> post)
+  cases op
+  case tls k =>
+    simp only [World.runOp]
+    split
+    · exact Post.throw _
+    · next e => have a := tlsGet_act h e; exact Post.pure _ (GoodT.of_act a)
+  case tlsTry k =>
+    simp only [World.runOp]
+    split
+    · next e => have a := tlsGet_act h e; exact Post.pure _ (GoodT.of_act a)
+    · next e => have a := tlsGet_act h e; exact Post.pure _ (GoodT.of_act a)
+  case tlsNest k j =>
+    simp only [World.runOp]
+    split
+    · exact Post.throw _
+    · next h1 =>
+      split
+      · exact Post.throw _
+      · next h2 => have a := tlsGet_act (tlsGet_act h h1) h2; exact Post.pure _ (GoodT.of_act a)
+  case blockOn => exact blockOnStage_post h _ _ _
+  case wake => exact wakeStage_post h _ _ _
+  case wakeRef => exact wakeStage_post h _ _ _
+  all_goals (simp only [World.runOp] <;> post)
 
 theorem stepActive_post {w : World} (h : ActT w.exec.threads) :
     Post w.stepActive (fun w' => GoodT w'.exec.threads) := by
